@@ -37,8 +37,6 @@ import (
 	"github.com/projectcalico/calico/verifkit/ev"
 )
 
-const c04SigDupParent = "C04-duplicate-profile-id-panics"
-
 var (
 	c04LabelNames = []string{"a", "b", "c"}
 	c04Values     = []string{"x", "x", "y", "z"}
@@ -395,11 +393,7 @@ func c04Run(t *rapid.T, rec *ev.Recorder, suppress bool) {
 				dup = dup || q == p
 			}
 			if dup {
-				if ev.Known(c04SigDupParent) {
-					rec.Excluded(c04SigDupParent)
-					continue
-				}
-				classes["duplicate-parent-id"] = true
+				classes["duplicate-parent-id"] = true // spec.profiles is not validated for uniqueness
 			}
 			ps = append(ps, p)
 		}
@@ -716,24 +710,43 @@ func TestVerifC04MembersSuppressOverlaps(t *testing.T) {
 	rapid.Check(t, func(t *rapid.T) { c04Run(t, rec, true) })
 }
 
-// TestVerifKnownC04DuplicateProfileID is the fixed reproduction of finding
-// C04-duplicate-profile-id-panics (not matched by the unit's run regex; the driver runs it to
-// confirm the finding is still present).  It fails while the finding reproduces.
-func TestVerifKnownC04DuplicateProfileID(t *testing.T) {
+// TestVerifC04RegressionDuplicateProfileID pins the input of a past finding: an endpoint whose
+// profile list names the same profile twice used to panic ("discard of unknown ID") when it
+// was deleted or its profile list changed.  The members it contributes must come and go
+// like any other endpoint's.
+func TestVerifC04RegressionDuplicateProfileID(t *testing.T) {
 	ev.Quiet()
 	for _, suppress := range []bool{false, true} {
 		func() {
 			defer func() {
 				if r := recover(); r != nil {
-					t.Errorf("suppressOverlaps=%v: deleting a host endpoint whose profile list names the same profile twice panics: %v", suppress, r)
+					t.Errorf("suppressOverlaps=%v: host endpoint whose profile list names the same profile twice: panic: %v", suppress, r)
 				}
 			}()
+			members := map[string]bool{}
 			idx := labelindex.NewSelectorAndNamedPortIndex(suppress)
+			idx.OnMemberAdded = func(_ string, m ipsetmember.IPSetMember) { members[m.ToProtobufFormat()] = true }
+			idx.OnMemberRemoved = func(_ string, m ipsetmember.IPSetMember) { delete(members, m.ToProtobufFormat()) }
+			sel, err := selector.Parse("a == 'x' && b == 'y'")
+			if err != nil {
+				t.Fatal(err)
+			}
+			idx.UpdateIPSet("set0", sel, ipsetmember.ProtocolNone, "")
+			prof := v3.NewProfile()
+			prof.Name = "p0"
+			prof.Spec.LabelsToApply = map[string]string{"b": "y"}
+			idx.OnUpdate(api.Update{KVPair: model.KVPair{Key: model.ResourceKey{Kind: v3.KindProfile, Name: "p0"}, Value: prof}, UpdateType: api.UpdateTypeKVNew})
 			key := model.HostEndpointKey{Hostname: "host", EndpointID: "hep0"}
 			hep := &model.HostEndpoint{Name: "eth0", ProfileIDs: []string{"p0", "p0"}, Labels: uniquelabels.Make(map[string]string{"a": "x"}),
 				ExpectedIPv4Addrs: []calinet.IP{calinet.MustParseIP("10.0.0.1")}}
 			idx.OnUpdate(api.Update{KVPair: model.KVPair{Key: key, Value: hep}, UpdateType: api.UpdateTypeKVNew})
+			if len(members) != 1 || !members["10.0.0.1/32"] {
+				t.Errorf("suppressOverlaps=%v: after adding the endpoint the set holds %v, want [10.0.0.1/32]", suppress, members)
+			}
 			idx.OnUpdate(api.Update{KVPair: model.KVPair{Key: key}, UpdateType: api.UpdateTypeKVDeleted})
+			if len(members) != 0 {
+				t.Errorf("suppressOverlaps=%v: after deleting the endpoint the set still holds %v", suppress, members)
+			}
 		}()
 	}
 }
